@@ -2,6 +2,7 @@ package hls
 
 import (
 	"encoding/hex"
+	"fmt"
 	"net"
 	"slices"
 	"sync/atomic"
@@ -47,6 +48,7 @@ type session struct {
 	muxer           *muxer
 	reader          *stream.Reader
 	onUnreadHook    func()
+	closedByPath    atomic.Bool
 }
 
 func (s *session) initialize(ctx *gin.Context) error {
@@ -146,12 +148,22 @@ func (s *session) initialize(ctx *gin.Context) error {
 		return err
 	}
 
+	// the path closed the session before it was visible to the muxer
+	// (the stream went away and the muxer belongs to the next one).
+	if s.closedByPath.Load() {
+		err = fmt.Errorf("terminated")
+		s.muxer.removeSession(s, err)
+		return err
+	}
+
 	return nil
 }
 
 // called by path or path manager.
-// not implemented since closing the Muxer is enough to close every associated session.
+// closing the Muxer is enough to close every associated session;
+// sessions that are not associated to a muxer yet close themselves.
 func (s *session) Close() {
+	s.closedByPath.Store(true)
 }
 
 func (s *session) close2(err error) {
